@@ -104,6 +104,9 @@ class FitYamlWriter(YamlWriterMixin, FitDReprBase):
                 _yaml_doc["parameter_formatters"] = _par_formatter_dict
 
         _cost_function_identifier = fit._cost_function.kafe2go_identifier
+        if fit._implicit_no_errors:
+            # the fit was set up with the default "chi2" and switches to it as soon as uncertainties are added: keep that behaviour
+            _cost_function_identifier = "chi2"
         if _cost_function_identifier is not None:
             _yaml_doc["cost_function"] = _cost_function_identifier
         else:
@@ -230,6 +233,10 @@ class FitYamlReader(YamlReaderMixin, FitDReprBase):
 
         if _read_parametric_model is not None:
             _fit_object._param_model = _read_parametric_model
+            if hasattr(_fit_object, "_bin_evaluation"):
+                # settings with which a histogram fit rebuilds its model when the data are replaced
+                _fit_object._bin_evaluation = _read_parametric_model.bin_evaluation
+                _fit_object._density = _read_parametric_model.density
             _fit_object._param_model._on_error_change_callback = _fit_object._on_error_change
             _fit_object._on_error_change()
 
